@@ -123,7 +123,9 @@ func drawInit(t *rapid.T, max int, hs int, exact bool) (bool, []InitOp) {
 
 func drawSched(t *rapid.T, nprocs int) SchedSpec {
 	sp := SchedSpec{}
-	switch rapid.IntRange(0, 12).Draw(t, "schedK") {
+	switch rapid.IntRange(0, 16).Draw(t, "schedK") {
+	case 13, 14, 15, 16:
+		return drawOpsSched(t, nprocs)
 	case 10, 11, 12:
 		sp.Kind = "segments"
 		n := rapid.IntRange(2, 8).Draw(t, "nsegs")
@@ -174,4 +176,23 @@ func drawConcCfg(t *rapid.T) gen.Cfg {
 	cfg := DrawStackCfg(t)
 	cfg.SkipNameCheck = rapid.Bool().Draw(t, "skipname")
 	return cfg
+}
+
+// drawOpsSched: whole-operation segments plus one or two pre-emptions inside operations.
+func drawOpsSched(t *rapid.T, nprocs int) SchedSpec {
+	sp := SchedSpec{Kind: "ops"}
+	n := rapid.IntRange(2, 8).Draw(t, "nopsegs")
+	for i := 0; i < n; i++ {
+		sp.OpSegs = append(sp.OpSegs, [2]int{rapid.IntRange(0, nprocs-1).Draw(t, "osProc"), rapid.IntRange(1, 3).Draw(t, "osOps")})
+	}
+	np := rapid.IntRange(1, 2).Draw(t, "npre")
+	for i := 0; i < np; i++ {
+		p := rapid.IntRange(0, nprocs-1).Draw(t, "preProc")
+		q := rapid.IntRange(0, nprocs-1).Draw(t, "preOther")
+		if q == p {
+			q = (p + 1) % nprocs
+		}
+		sp.Pre = append(sp.Pre, [5]int{p, rapid.IntRange(0, 5).Draw(t, "preOp"), rapid.IntRange(0, 30).Draw(t, "preYield"), q, rapid.IntRange(1, 3).Draw(t, "preOps")})
+	}
+	return sp
 }
